@@ -29,6 +29,7 @@ func retNonNilFirst(g *eng.Graph, rs *ast.ReturnStmt) bool {
 }
 
 func runC03(c *eng.Ctx) {
+	defer runC03Marker(c)
 	p := c.P
 	walLog := p.MethodOn("tsdb:Head.wal", "Log")
 	// ---- R1 durable before ack: Commit ----
